@@ -161,7 +161,7 @@ pub fn run(ctx: &Ctx, rep: &mut Report) {
         check(&s, &format!("pairs:{}", i), rep, false);
     });
     let wide: Vec<char> = WIDE.chars().collect();
-    let n_rand = ctx.pick(30_000, 5_000_000);
+    let n_rand = ctx.pick(30_000, 20_000_000);
     par_cases(ctx, "random", n_rand, rep, |i, rep| {
         let mut r = Rng::for_case(ctx.seed, "random", i);
         let len = 1 + r.usize(60);
